@@ -36,7 +36,19 @@ def op_bit(c, o):
     if b == 8 and indt == "i1":
         indt = "u1"
     arr = np.array([dig_to_int(d) for d in a], dtype=DT2NP[indt])
+    keep = arr.copy()
     p = BitArray.pack(arr, b)
+    if not np.array_equal(arr, keep):
+        return ["not-repeatable", "pack() modified the caller's array"]
+    if o.get("repack"):                            # packing the same source again (other width first) must not disturb the first result
+        BitArray.pack(arr, 64 if b < 64 and 64 % b == 0 and False else b)
+        wider = [x for x in (1, 2, 4, 8, 16, 32) if x > b and all(dig_to_int(d) < (1 << x) for d in a)]
+        if wider:
+            BitArray.pack(arr, wider[0])
+        if not np.array_equal(arr, keep):
+            return ["not-repeatable", "pack() modified the caller's array"]
+    if o.get("pre_w") and op in ("bit_window", "bit_roundtrip", "bit_getlist") and len(a) >= int(o["pre_w"]):
+        p.sliding_window(int(o["pre_w"]))          # an earlier window query (of another size) on the same object
     if op == "bit_roundtrip":
         u = p.unpack()
         return ["digits", [int_to_dig(x, b) for x in np.asarray(u).tolist()]]
@@ -66,11 +78,19 @@ def op_bit(c, o):
 _CLASSES = {}
 
 
-def cls_for(names):
-    key = tuple(names)
+def cls_for(names, inherit=False):
+    """an npdataclass with the given array fields; with inherit=True the class extends the npdataclass of its first field
+    (which is created - and used once - first), the way user code derives record types"""
+    key = (tuple(names), inherit and len(names) > 1)
     if key not in _CLASSES:
-        ns = {"__annotations__": {n: np.ndarray for n in names}}
-        base = type("T_" + "_".join(names), (), ns)
+        if key[1]:
+            parent = cls_for(names[:1])
+            parent(np.arange(2))[0:1]                                   # the parent class has been used before the child exists
+            ns = {"__annotations__": {n: np.ndarray for n in names[1:]}}
+            base = type("T_" + "_".join(names) + "_child", (parent.dataclass,), ns)
+        else:
+            ns = {"__annotations__": {n: np.ndarray for n in names}}
+            base = type("T_" + "_".join(names), (), ns)
         _CLASSES[key] = npdataclass(base)
     return _CLASSES[key]
 
@@ -83,9 +103,12 @@ def col_np(col, w0=1):
     return np.array([[int(x) for x in r] for r in data], dtype=np.int64).reshape(len(data), w)
 
 
+_INHERIT = [False]
+
+
 def mk_table(t, widths=None):
     names, cols = t
-    return cls_for(names)(*[col_np(c, (widths or {}).get(i, 1)) for i, c in enumerate(cols)])
+    return cls_for(names, _INHERIT[0])(*[col_np(c, (widths or {}).get(i, 1)) for i, c in enumerate(cols)])
 
 
 def widths_of(tables):
@@ -133,6 +156,7 @@ def py_sel(sel):
 
 def op_dc(c, o):
     op = c[0]
+    _INHERIT[0] = bool(o.get("inherit"))
     if op == "dc_new":
         return proj_table(mk_table(c[1]))
     if op == "dc_len":
